@@ -166,6 +166,17 @@ CHECKS = {
              "One defect repaired.",
         ref="DESIGN.md 4 C09",
     ),
+    "C04": dict(
+        text="Runtime half of argument delivery: the code objects the real parser and transformer emit for `cmd @(X)`, `cmd @(X) @(Y)`, "
+             "`cmd a @(X) b`, `cmd @(XS) z`, `cmd pre@(X)post`, `cmd f\"{X}\"` are executed symbolically with X, Y symbolic strings (any "
+             "code points, 1-3 characters), lists/tuples of them, ints, bytes and callables through the real list_of_strs_or_callables, "
+             "ensure_str_or_callable, outer-product and expand_path code; the argv handed to run_subproc must be verbatim, one argument "
+             "per string/element, in position, and glob must never be called on injected content. Finite pools cover the documented "
+             "$VAR / ~ expansion of 27 literal shapes (raw and non-raw), @$() re-splitting of 11 outputs and macro ! bodies.",
+        note="Partial claim (runtime hand-off): lexing/quoting of literal text and the alias-thread vs Popen delivery paths are outside. "
+             "run_subproc and XSH.glob are recorders. One known finding (concatenated injection) is listed.",
+        ref="DESIGN.md 4 C04",
+    ),
 }
 
 NA = {
